@@ -28,3 +28,6 @@ for sd in seeds:
     finally:
         subprocess.run(["git", "-C", REPO, "checkout", "--", "."], check=True)
 json.dump({"%s/%s" % k: v for k, v in results.items()}, open(os.path.join(VERIF, "out", "seed_matrix.json"), "w"), indent=1)
+# leave the generated model as the clean tree defines it (the last check regenerated it from a seeded tree)
+subprocess.run(["/venv/bin/python", os.path.join(VERIF, "tools", "gen_tables.py")], cwd=VERIF, capture_output=True)
+subprocess.run(["/venv/bin/python", os.path.join(VERIF, "tools", "gen_sites.py")], cwd=VERIF, capture_output=True)
